@@ -19,8 +19,11 @@ import traceback
 from concurrent.futures import ProcessPoolExecutor
 
 VERIF = os.path.dirname(os.path.dirname(os.path.abspath(__file__)))
-EVIDENCE_DIR = os.path.join(VERIF, "evidence")
-REPLAY_DIR = os.path.join(VERIF, "replays")
+# FSIM_OUT_DIR redirects evidence and replay files (used when a check is run against a mutated scratch copy of the
+# repository, so that /verif/evidence only ever holds results for /repo itself)
+_OUT = os.environ.get("FSIM_OUT_DIR") or VERIF
+EVIDENCE_DIR = os.path.join(_OUT, "evidence")
+REPLAY_DIR = os.path.join(_OUT, "replays")
 KNOWN = os.path.join(VERIF, "known_findings.json")
 
 MAX_SAMPLES_PER_SIG = 3
